@@ -40,6 +40,8 @@ def run(ctx):
     tl.headers_worker(ctx, P)
     tl.shape_worker(ctx, P)
     tl.check_workers_no_swallow(ctx, P)
+    # "default validation" is also what the command line runs: its defaults are the API's
+    tl.cli_wiring(ctx, P)
     tl.task_builder(ctx, P, "Taster.taste_binary_headers",
                     {"bfile": "file", "offsets": "offsets_sorted", "indices": "indices_sorted", "nfields": "nfields"})
     tl.task_builder(ctx, P, "Taster.taste_binary_shape", {"bfile": "file", "indices": "indices_sorted",
